@@ -16,6 +16,10 @@ CLAIMS = {
    text="Theorems over a hand model of BodyStructParser (BodyStruct.v), for all trees of any width and depth: the map built by the walker holds exactly (IMAP part specifier -> part) (soundness, completeness, no key inserted twice); every candidate search() may return leads to a part satisfying the predicate, and there is a candidate iff some part satisfies it; every index lies between 1 and the widest multipart (u32 counter cannot overflow below 2^32 children). Tied to the code by running the real BodyStructParser on ~35 000 generated (tree, predicate) cases and requiring its answer to be one of the model's candidates; an implementation-only oracle (the property's own definition of part specifiers) judges violations.",
    note=TB + "Modelled, not verified: HashMap (insert keeps last value per key; iteration order arbitrary). message/rfc822 parts are leaves for the walker, as in the code.",
    technique="Coq proof by induction over trees + extraction-based differential vs BodyStructParser", ref="3 C17"),
+ "C01": dict(
+   text="Totality of the model parser for every byte string, from three generic theorems over the deep-embedded grammar and their instantiation on the grammar regenerated from /repo. (1) No panic: translated actions are syntactically total (no unwrap/index/slice), every hand-modelled native is proved total (incl. the METADATA entry-name checker: every index guarded, its loop terminates), the one action that needs a value invariant (&text[1..]) is proved safe from the 7-bit class of `text`, every reference resolves and nothing is untranslatable; the regenerated inventory of unwrap/index/cast/arithmetic sites must be contained in a hand table of sites with an argument. (2) Bounded call depth: a rank table emitted by rs2coq is re-checked by computation at every nesting depth 0..MAX (every call goes to a strictly smaller rank; the depth guards are what makes the recursive cycles decrease), so fuel 400 >= rank(parse_response) suffices for ALL inputs. (3) Loops: the structural loop counters are never the reason a loop stops (nom's progress checks fire first). Tie: translator + correspondence; the implementation-side oracle catches panics on six input streams and runs a nesting sweep 1..20000 at every recursive position on a 2 MiB thread in a child process, debug and release.",
+   note=TB + "rs2coq in the trusted base. PARTIAL: the theorem bounds the number of nested parser-function calls; bytes of stack per call are not modelled, so 'fits a 2 MiB stack' is measured by the nesting sweep, not proved. Through-the-codec arithmetic (rsp_len <= |buf|) follows from Thm_Sfx.run_rest_le and is pinned with C04. Modelled, not verified: nom primitives/combinators; std from_utf8/from_str/eq_ignore_ascii_case.",
+   technique="Coq generic metatheorems (no-panic, rank => bounded depth, loop counters) + vm_compute reflection on regenerated grammar, rank table and panic-site inventory + crash oracle in a child process", ref="3 C01"),
  "C02": dict(
    text="Generic theorem run_stab, proved once over the deep-embedded grammar for ANY grammar without complete-mode nom primitives, any actions, any fuel and loop bounds: accept (same value, same consumed length), Error and Failure verdicts are unchanged when arbitrary bytes are appended. Instantiated on the grammar that rs2coq regenerates from /repo on every run (140 parser functions): reflection obligation streaming_only = true by vm_compute, c02_verdicts_final for all buffers B and continuations X, and the corollary that every proper prefix of an accepted response is neither accepted nor rejected. The model is tied to the code by the translator (the use-lists decide streaming vs complete per module) and by comparing model and implementation results (verdict, consumed length, full value) on generated responses, all their prefixes, mutated/spliced buffers; violations are searched on the implementation alone.",
    note=TB + "rs2coq (unverified translator) in the trusted base. Modelled, not verified: nom 7.1.3 primitives/combinators (Nom.v, Interp.v), the hand models of number/literal/entry_name and of the irregular closures (Natives.v). RPanic/RFuel outcomes are excluded by C01's theorems, not here.",
